@@ -283,6 +283,22 @@ class Conn:
                 e = ctx.get("exception")
                 self.log.append(["escaped", type(e).__name__, str(e)[:200]])
 
+    def feed_burst(self, chunks):
+        """deliver several reads back to back BEFORE the event loop gets a turn (asyncio: several data_received calls
+        queued behind one waiter wake-up, as with several TLS records in one segment; Twisted: same as feeding them
+        one by one, dataReceived is synchronous)"""
+        if self.env.fw == "tx":
+            for c in chunks:
+                self._entry(self.proto.dataReceived, c)
+        else:
+            n0 = len(self.env.loop.exceptions)
+            for c in chunks:
+                self._entry(self.proto.data_received, c)
+            self.env.turn()
+            for ctx in self.env.loop.exceptions[n0:]:
+                e = ctx.get("exception")
+                self.log.append(["escaped", type(e).__name__, str(e)[:200]])
+
     def lost(self, clean=True):
         if self.env.fw == "tx":
             from twisted.python.failure import Failure
